@@ -70,7 +70,7 @@ ODD = ["", " ", "{0.__class__}", "a b", "foo.bar", "1", "\U0001F600"]
 NAMES = PUBLIC + PRIVATE + ODD
 STR_ENTRIES = ["foo", "bar", "m_foo", "_x", "__class__", "alias", "zed", "", "x"]
 FORMS = ["attr", "method", "index"]
-PROTO_ATTRS = {"__yaqlization__", "__class__"}
+PROTO_ATTRS = {"__yaqlization__", "__class__", "__unwrapped__"}
 
 EXN = {"ERuntime": "ERuntime", "ENoMatch": "ENoMatch", "EAttribute": "EAttribute", "EKey": "EKey", "EIndex": "EIndex", "EType": "EType"}
 
